@@ -277,3 +277,27 @@ _A_MG = ["plugins are scripted fakes implementing plugins.Plugin (only GetNodesD
 prop("C09", "merge", "every answer set of 1-3 plugins over 1-2 nodes (offered or not, cap in {1,2,unlimited}, weights {1,2,100}, usage/rate) in every registration order, repeated (map order); non-trivial = more than one plugin", _A_MG)
 
 ALSO["C07"] = ["merge"]
+
+
+# =========================================================================== Txn: C17
+@family("txn")
+def fam_txn(tier, base):
+    r = verif.model_check("Txn", "MC_Txn.cfg", coverage=True)
+    dead = [a for a in ("Cancel", "BeginCond", "EndCond", "BeginThen", "EndThen", "BeginRb", "EndRb", "Return") if r.coverage.get(a, 0) == 0]
+    if dead:
+        raise Broken("Txn model: actions never taken: %s" % dead)
+    trace = base + ".trace.ndjson"
+    b = verif.build_driver("pure")
+    verif.run_driver(b, "TestTxnReplay", env={"VERIF_TRACE": trace})
+    viols, tr = verif.validate_trace("Trace_Txn", "Trace_Txn.cfg", trace)
+    lines = verif.read_lines(trace)
+    cases = sum(1 for ln in lines if '"ev":"Case"' in ln)
+    rb = sum(1 for ln in lines if '"ev":"Begin"' in ln and '"which":"rollback"' in ln)
+    return dict(trace=trace, viols=viols, states=r.distinct, transitions=r.generated, configs=["MC_Txn.cfg", "Trace_Txn.cfg"], window=8,
+                traces={"*": cases}, samples={"*": [json.loads(x) for x in lines[:9]]}, nontrivial={"C17": rb}, actions_covered=r.coverage,
+                notes="model: every outcome vector x every cancellation point (exhaustive, liveness Finishes under WF); code: the same %d cases on the real utils.Txn/PCR, %d of them ran a rollback" % (cases, rb))
+
+
+prop("C17", "txn", "all outcome vectors (cond ok/fail, then ok/fail/absent, rollback ok/fail/absent) x cancellation before / during / after each step, for Txn and PCR; exhaustive; non-trivial = a rollback ran",
+     ["steps are scripted closures that log their context's state at entry and exit; cancellation is issued from inside the steps, so every position is deterministic",
+      "ttl of one minute is never reached"])
